@@ -631,6 +631,18 @@ impl<'a> CaseRunner<'a> {
               self.rep.count("bottom_up_builds_told_about_unchanged_or_repeated_resources");
             }
           }
+          // One build in five is preceded, in the same session, by a bottom-up build that is told about some resources
+          // while every checker fails - so all their dependents are scheduled in it - and is then dropped without
+          // updating: nothing of it may leak into the build that follows.
+          {
+            let mut ab = Rng::derive(self.opts.seed ^ 0xABA_D0, self.opts.case_no.wrapping_mul(257).wrapping_add(i as u64));
+            let none_armed = crate::cell::FAULTS.with(|f| f.borrow().armed_checks.is_empty());
+            if none_armed && ab.chance(1, 5) {
+              let n_res = self.prog.n_res;
+              self.drv.abandon_plan = Some((0..ab.range(1, 3)).map(|_| ab.below(n_res) as u32).collect());
+              self.rep.count("bottom_up_builds_preceded_by_an_abandoned_build");
+            }
+          }
           let rec = self.drv.session(Some(changed), roots);
           // With tainted producers around (mixed histories, finding K1) the build may legitimately trust stale tasks;
           // then only the probe below decides, through the K1 classifier.
